@@ -311,7 +311,7 @@ def rs_configs(prop, quick_np, thorough_np):
 
 PROPS["C13"] = dict(
     module="RaptorModel.Props.C13",
-    extra_theorem_modules=["RaptorModel.Props.C13RS"],
+    extra_theorem_modules=["RaptorModel.Props.C13RS", "RaptorModel.Props.C13RSCover"],
     harnesses=["h_rs"],
     configs=rs_configs("C13", [1, 2, 3, 4, 6], [1, 2, 3, 4, 5, 6, 8, 12, 16]),
     rule=("strength graphs of random M-matrix-like systems (symmetric and non-symmetric patterns, decoupled vertices, thresholds 0..1/2), up to ~30 "
@@ -319,8 +319,10 @@ PROPS["C13"] = dict(
           "empty ranks and ranks without boundary; standard and node-aware. Non-trivial = the graph has an edge."),
     trusted=COMMON_TRUST + ["weights are distinct dyadic-free doubles (k+1)/(n+2); comparisons exact"],
     assumptions=["sequential RS: the bucket machine Model/RS.lean mirrors rs_first_pass / rs_second_pass array for array (labels compared exactly on every "
-                 "sequential case); 'fine keeps a coarse neighbour' is proved for every visit order (C13RS.splitRS_FC); totality is proved under the "
-                 "hypothesis that the bucket order reaches every column, which the driver evaluates on every instance (certificate visit_order)",
+                 "sequential case); 'fine keeps a coarse neighbour' is proved for every visit order (C13RS.splitRS_FC); that the bucket order reaches every "
+                 "column is proved in Props/C13RSCover.lean (firstPass_cover, from a six-array bucket invariant) for every graph whose entries are vertices "
+                 "and in which no vertex depends on itself, so totality and one-coarse-one-fine hold unconditionally (splitRS_total_proved, "
+                 "splitRS_mixed_of_edge_proved); the driver still evaluates the visit order on every instance as a cross-check of the model",
                  "distributed RS: specification predicates only"],
 )
 
